@@ -83,38 +83,44 @@ def c05_1(R):
     R.require(len(new) == 1, "exactly one new-data send site (start = Some(last_sent_seq_nr + 1))")
     st = stq.body if False else stq
     site = new[0]["call"]
-    rl = [i for i, l in enumerate(stq.locals) if l["name"] == "remaining_cwnd"]
-    R.require(len(rl) == 1, "local remaining_cwnd")
-    rl = rl[0]
-    # (a) guard
+    # (a) guard: the send budget is whatever local the site's guard compares with the segment's payload_size
+    rl = None
     ok = False
     conds = []
     for t, tgt, lab in controlling_edges(stq, site.bb):
         c, neg = switch_cond(stq, t)
         conds.append(describe_cond(stq, t, lab))
-        if c.kind == "bin" and c.op in ("Lt", "Ge", "Gt", "Le"):
-            ta, tb = trace(stq, c.a), trace(stq, c.b)
-            pol = (lab[1] != 0) if lab[0] == "val" else (0 in lab[1])
-            if neg:
-                pol = not pol
-            a_is_r = ta.kind == "multi" and ta.root[1] == rl
-            b_is_r = tb.kind == "multi" and tb.root[1] == rl
-            a_is_p = ta.kind == "call" and call_matches(ta.root[1], ("SegmentForSending::payload_size",))
-            b_is_p = tb.kind == "call" and call_matches(tb.root[1], ("SegmentForSending::payload_size",))
-            # site reached iff remaining_cwnd >= payload_size
-            if (a_is_r and b_is_p and ((c.op == "Lt" and not pol) or (c.op == "Ge" and pol))) or (a_is_p and b_is_r and ((c.op == "Gt" and not pol) or (c.op == "Le" and pol))):
+        pol = (lab[1] != 0) if lab[0] == "val" else (0 in lab[1])
+        if neg:
+            pol = not pol
+        o = ordering(c, pol)
+        if o is not None:
+            lo, hi = trace(stq, o[0]), trace(stq, o[1])
+            # site reached iff payload_size <= remaining_cwnd
+            if lo.kind == "call" and call_matches(lo.root[1], ("SegmentForSending::payload_size",)) and hi.kind == "multi" and not hi.fields:
                 ok = True
+                rl = hi.root[1]
     if ok:
         R.ok("new-data-send=>fits-window", stq.name, "send only when !(remaining_cwnd < payload_size)")
     else:
         R.fail([STQ, "new-data-send", "not-guarded-by(remaining_cwnd>=payload_size)"], "new data is transmitted without checking that the segment fits min(cwnd, peer window) - flight (guards: %s)" % ", ".join(sorted(c for c in conds if "remaining" in c or "payload" in c)),
                where=site.where(), instance="new-data-send=>fits-window")
     # (b) what remaining_cwnd is
+    if rl is None:
+        return
     defs = stq.all_defs(rl)
     init = [d for d in defs if isinstance(d, Term) and d.kind == "call"]
-    R.require(len(init) == 1 and call_matches(init[0], ("Option::unwrap_or_else",)), "remaining_cwnd = recovery.remaining_cwnd(..).unwrap_or_else(..)")
+    R.require(len(init) == 1, "one initialisation of the send budget")
     init = init[0]
-    u0 = B.ub(stq, init.args[0])
+    ib = stq
+    for _ in range(3):
+        # the initialiser may live in a private helper of the socket: follow its returned call
+        if not call_matches(init, ("Option::unwrap_or_else",)) and init.j.get("res_local") and F.body(init.resolved) is not None:
+            ib = F.body(init.resolved)
+            init = returned_call(ib)
+            R.require(init is not None, "send budget helper returns the result of one call")
+    R.require(call_matches(init, ("Option::unwrap_or_else",)), "remaining_cwnd = recovery.remaining_cwnd(..).unwrap_or_else(..)")
+    u0 = B.ub(ib, init.args[0])
     need0 = {("field", "Recovering.cwnd"), ("field", "VirtualSocket.last_remote_window")}
     if u0 is not None and need0 <= u0:
         R.ok("remaining_cwnd<=min(cwnd,rwnd)", "in recovery", "ub = " + fmt_ub(u0))
@@ -125,7 +131,7 @@ def c05_1(R):
         R.ok("remaining_cwnd-subtracts-outstanding", rc.name, "saturating_sub(pipe)")
     else:
         R.fail([rc.name, "missing-subtraction", "Pipe.pipe"], "recovery send budget no longer subtracts the pipe estimate", where=rc.where(), instance="remaining_cwnd-subtracts-outstanding")
-    ct = trace(stq, init.args[1])
+    ct = trace(ib, init.args[1])
     R.require(ct.kind == "rv" and ct.root[1].rv.kind == "agg" and ct.root[1].rv.j["ak"] == "closure", "closure argument of unwrap_or_else")
     cl = R.body(ct.root[1].rv.j["closure"])
     u1 = B.summary(cl.name)
@@ -158,6 +164,20 @@ def c05_1(R):
         R.fail([STQ, "send-without(remaining_cwnd-=payload_size)"], "after a successful send the loop can continue without reducing the remaining send budget", where=site.where(), instance="sent=>budget-decremented")
 
 
+def window_budget_local(sp):
+    """the loop variable of split_tx_queue_into_segments that starts at last_remote_window and is decremented (identified by shape, not by name)"""
+    out = []
+    for i, l in enumerate(sp.locals):
+        defs = sp.all_defs(i)
+        if len(defs) < 2:
+            continue
+        init = [d for d in defs if isinstance(d, Stmt) and d.rv.kind in ("use", "cast") and value_sources(sp, d.rv.ops[0]) == {("field", "VirtualSocket.last_remote_window")}]
+        dec = [d for d in defs if isinstance(d, Stmt) and (lambda lu: lu and lu[0] == i and lu[1] == "-=")(local_update(sp, d))]
+        if init and dec:
+            out.append(i)
+    return out[0] if len(out) == 1 else None
+
+
 @rule("C05.2", ["C05", "C18", "C14"], ["E5", "E2"], "segmentation stops at the peer window",
       "In split_tx_queue_into_segments the payload_len passed to Segments::enqueue is bounded by remote_window_remaining (<- last_remote_window, decremented by every enqueue) and by next_segment_size(); "
       "enqueue is control-dependent on `remote_window_remaining > 0` = true (nothing new after a zero window); Segments::enqueue is called from nowhere else.")
@@ -174,9 +194,8 @@ def c05_2(R):
     R.ok("enqueue-callers", SPLIT)
     t = mine[0]
     u = B.ub(sp, t.args[1])
-    rw = [i for i, l in enumerate(sp.locals) if l["name"] == "remote_window_remaining"]
-    R.require(len(rw) == 1, "local remote_window_remaining")
-    rw = rw[0]
+    rw = window_budget_local(sp)
+    R.require(rw is not None, "the local that starts at last_remote_window and is decremented per segment")
     need = {("field", "VirtualSocket.last_remote_window")}
     has_ss = u is not None and any(x[0] == "call" and x[1].endswith("SegmentSizes::next_segment_size") for x in u)
     if u is not None and need <= u and has_ss:
@@ -187,12 +206,13 @@ def c05_2(R):
     ok = False
     for tt, tgt, lab in conds:
         c, neg = switch_cond(sp, tt)
-        if c.kind == "bin" and c.op in ("Gt", "Ne"):
-            ta = trace(sp, c.a)
-            pol = (lab[1] != 0) if lab[0] == "val" else (0 in lab[1])
-            if neg:
-                pol = not pol
-            if ta.kind == "multi" and ta.root[1] == rw and c.b.kind == "const" and c.b.scalar == 0 and pol:
+        pol = (lab[1] != 0) if lab[0] == "val" else (0 in lab[1])
+        if neg:
+            pol = not pol
+        x = nonzero_test(c, pol)
+        if x is not None:
+            ta = trace(sp, x)
+            if ta.kind == "multi" and ta.root[1] == rw and not ta.fields:
                 ok = True
     if ok:
         R.ok("enqueue=>window-open", SPLIT, "enqueue only while remote_window_remaining > 0")
@@ -230,12 +250,12 @@ def c05_3(R):
         ok = False
         for t, tgt, lab in controlling_edges(stq, s["call"].bb):
             c, neg = switch_cond(stq, t)
-            if c.kind == "bin" and c.op in ("Gt", "Ne") and trace(stq, c.a).last_field == "VirtualSocket.rto_retransmissions" and c.b.kind == "const" and c.b.scalar == 0:
-                pol = (lab[1] != 0) if lab[0] == "val" else (0 in lab[1])
-                if neg:
-                    pol = not pol
-                if not pol:
-                    ok = True
+            pol = (lab[1] != 0) if lab[0] == "val" else (0 in lab[1])
+            if neg:
+                pol = not pol
+            xz = zero_test(c, pol)
+            if xz is not None and trace(stq, xz).last_field == "VirtualSocket.rto_retransmissions":
+                ok = True
         if ok:
             R.ok("non-rto-send=>not-in-rto-mode", s["kind"], "guarded by rto_retransmissions > 0 = false")
         else:
@@ -255,9 +275,7 @@ def c05_3(R):
                 if blk.cleanup or blk.term.kind != "switch":
                     continue
                 c, neg = switch_cond(b, blk.term)
-                if c.kind == "bin" and c.op == "Gt" and trace(b, c.a).last_field in ("OnAckResult.newly_sacked_segment_count",):
-                    be = bool_edges(b, blk.idx)
-                    blocks_false.add((blk.idx, be[0]))  # the false edge of the *second* disjunct
+                pass
             reach = b.reachable(0, removed_edges=set())
             # reset reachable only via: first disjunct true, or second disjunct true
             first_true = set()
@@ -266,13 +284,17 @@ def c05_3(R):
                 if blk.cleanup or blk.term.kind != "switch":
                     continue
                 c, neg = switch_cond(b, blk.term)
-                if c.kind == "bin" and c.op == "Gt" and c.b.kind == "const" and c.b.scalar == 0:
-                    lf = trace(b, c.a).last_field
+                for operand_truth in (True, False):
+                    xn = nonzero_test(c, operand_truth)
+                    if xn is None:
+                        continue
+                    lf = trace(b, xn).last_field
                     be = bool_edges(b, blk.idx)
+                    nz_edge = be[1] if (operand_truth != neg) else be[0]
                     if lf == "OnAckResult.acked_segments_count":
-                        first_true.add((blk.idx, be[1]))
+                        first_true.add((blk.idx, nz_edge))
                     if lf == "OnAckResult.newly_sacked_segment_count":
-                        second_true.add((blk.idx, be[1]))
+                        second_true.add((blk.idx, nz_edge))
             okk, bad = must_pass_edges(b, [st.bb], first_true | second_true)
             if okk and first_true and second_true:
                 R.ok("rto_retransmissions-writers", fn, "= 0 only when the batch acked or sacked something")
@@ -349,9 +371,12 @@ def c05_5(R):
             t = trace(ack, fu.amount, through_casts=False)
             if t.kind == "rv" and t.root[1].rv.kind == "bin" and t.root[1].rv.op == "Div":
                 a, b_ = t.root[1].rv.ops
-                if ("param", "len") in value_sources(ack, a) and ("field", "Cubic.mss") in value_sources(ack, b_):
-                    conds = [describe_cond(ack, tt, lab) for tt, tgt, lab in controlling_edges(ack, s.bb)]
-                    if any(c.startswith("bin:Lt(param:self.Cubic.cwnd,param:self.Cubic.ssthresh)=true") for c in conds):
+                if ("param", 3) in value_sources(ack, a) and ("field", "Cubic.mss") in value_sources(ack, b_):  # on_ack(self, now, len, rtte)
+                    in_ss = False
+                    for c_, truth_, d_, *_ in controlling(ack, s.bb):
+                        if c_.kind == "bin" and c_.op in ("Lt", "Ge") and trace(ack, c_.a).last_field == "Cubic.cwnd" and trace(ack, c_.b).last_field == "Cubic.ssthresh":
+                            in_ss = (c_.op == "Lt") == truth_
+                    if in_ss:
                         found = True
                         R.ok("slow-start-increment", ack.name, "cwnd += len / mss under cwnd < ssthresh")
     if not found:
@@ -388,7 +413,7 @@ def c05_6(R):
                     else:
                         R.fail([fn, "CongestionController::on_ack", "len-sources=" + sources_str(b, t.args[2])], "the congestion controller is credited with something other than exactly the cumulatively acknowledged bytes (slow start grows faster than the acknowledged data)", where=t.where(), instance="on_ack-len-source")
                 elif fn.startswith("<congestion::tracing::TracingController as"):
-                    if src in ({("param", "len")}, {("upvar", "len")}):
+                    if src in ({("param", 3)}, {("upvar-param", 3)}):
                         R.ok("on_ack-len-source", "TracingController", "forwards len unchanged")
                     else:
                         R.fail([fn, "CongestionController::on_ack", "len-sources=" + sources_str(b, t.args[2])], "the tracing wrapper alters the acknowledged byte count", where=t.where(), instance="on_ack-len-source")
